@@ -28,4 +28,9 @@ theorem median_pick : Facts.c06_median_pick = "median <= weightedTime.Weight" :=
 the `fix:` commit) — with `Validators` `size_fits` is false of the code -/
 theorem proposal_budget_vals : Facts.c06_proposal_budget_vals = true := by decide
 
+/-- `State.voteTime` consults the LOCKED block first and the proposal only without a lock (model:
+`voteTime`; `voteTime_after_locked`, `next_block_valid_of_correct_votes` rest on this order) -/
+theorem voteTime_first : Facts.c06_voteTime_first = "cs.LockedBlock != nil" := by decide
+theorem voteTime_second : Facts.c06_voteTime_second = "cs.ProposalBlock != nil" := by decide
+
 end Tmv.Expect.C06
